@@ -138,6 +138,12 @@ func dischargeOne(o *Obl, file string, quickMs, fullMs int, stats *SolveStats) {
 		return
 	}
 	t0 := time.Now()
+	if o.Short {
+		// recorded finding: it is expected not to discharge, so do not spend the full budget on it
+		if fullMs > 6000 {
+			fullMs = 6000
+		}
+	}
 	// stage 1: the newest z3 alone, short budget
 	r := runSolver(context.Background(), solvers[0], file, quickMs)
 	var all []solveResult
